@@ -264,6 +264,7 @@ def finish_observation(st, sf, sc, verdict, cs, ob):
     ob["discarded"] = {"c": st.discards.get(id(cs.get("csock")), 0), "s": st.discards.get(id(cs.get("ssock")), 0),
                        "any": sum(st.discards.values())}
     ob["verdict"] = verdict
+    ob["owed_dm"] = list(st.owed_dm)
     bg = cs.get("bg")
     ob["background"] = {"sent": list(bg.sent), "got": list(bg.got)} if bg is not None and bg.cfg else None
     ob["sched"] = {"steps": st.sched.steps, "ticks": st.sched.ticks, "timeouts": st.sched.timeouts,
@@ -404,6 +405,18 @@ def run_full_ho(sc):
     return finish_observation(st, sf, sc, verdict, cs, ob)
 
 
+OWED_DM_KEY = "llcp-close-drops-dm-owed-to-peer"
+
+
+def owed_dm_failure(ob):
+    """a close() in CLOSE_WAIT discarded the DM that answers the peer's DISC (findings/C06.json): the peer's close()
+    then blocks until the link goes down; everything else that goes wrong in such a run follows from it"""
+    if ob.get("owed_dm"):
+        return (OWED_DM_KEY, "close() of socket(s) (local SAP, peer SAP) %s discarded the DM answering the peer's DISC before the link "
+                "thread had sent it; the peer's close() waits for it until the link goes down" % (ob["owed_dm"],))
+    return None
+
+
 def is_prefix(a, b):
     return len(a) <= len(b) and list(b[:len(a)]) == list(a)
 
@@ -456,3 +469,361 @@ def stack_oracle(sc, ob):
 def describe(sc):
     d = dict((k, v) for k, v in sc.items() if k not in ("ops", "reqs"))
     return d
+
+
+# ------------------------------------------------------------------ client OBJECTS over their life time
+ALT_SERVICE = "urn:nfc:sn:c06alt"
+SERVICES = ["urn:nfc:sn:snep", ALT_SERVICE]
+
+
+def expect_request(op, cmiu, maxacc, cacc):
+    """(result the client must see, delivered to the application?) for one request on a connection with send MIU
+    `cmiu` to a service with limit `maxacc`"""
+    o = op["octets"]
+    lim = min(maxacc, 0xFFFFFFFF)
+    if op["op"] == "p":
+        if len(o) > lim:
+            return ("False" if 6 + len(o) > cmiu else "SnepError(255)"), False
+        if not op["valid"]:
+            return "SnepError(194)", False
+        return ("True" if op["ret"] == 0x81 else "SnepError(%d)" % op["ret"]), True
+    if 4 + len(o) > lim:
+        return ("None" if 10 + len(o) > cmiu else "SnepError(255)"), False
+    if not op["valid"]:
+        return "SnepError(194)", False
+    r = op["ret"]
+    if isinstance(r, int):
+        return "SnepError(%d)" % r, True
+    return ("SnepError(193)" if len(r) > cacc else "data:" + hx(r)), True
+
+
+def gen_hist_snep(ck, rng, ndefs):
+    sc = gen_link(rng)
+    sc["protocol"] = "snep-history"
+    srv_link = sc["miu_t"] if sc["client_role"] == "I" else sc["miu_i"]
+    sc["services"] = [{"recv_miu": rng.choice([128, 128, 200, 248]), "recv_buf": rng.choice([1, 2, 15]),
+                       "maxacc": rng.choice([0x100000, 0x100000, 300, 150])} for _ in SERVICES]
+    if rng.random() < 0.7:      # the two services differ in what the client must not carry over: MIU and limit
+        sc["services"][1]["recv_miu"] = rng.choice([m for m in (128, 200, 248) if m != sc["services"][0]["recv_miu"]])
+    for s in sc["services"]:
+        s["cmiu"] = min(s["recv_miu"], srv_link)
+    sc["cacc"] = rng.choice([0x10000, 0x10000, 140, 100])
+    # histories: a walk over {temporary request, connect, request, close} that starts with one of the patterns
+    # in which state of the object could leak from one phase into the next
+    start = rng.choice([["r"], ["r", "c1", "r", "r"], ["c1", "r", "x", "r", "r"], ["c0", "r", "c1", "r"], ["r", "r", "c1", "r", "r", "x", "r"],
+                        ["c1", "c0", "r"], ["x", "r"], []])
+    toks = list(start)
+    for _ in range(rng.randrange(0, 5)):
+        toks.append(rng.choice(["r", "r", "r", "c0", "c1", "c1", "x"]))
+    ops = []
+    for t in toks:
+        if t == "r":
+            kind = rng.choice("ppgg")
+            size = rng.choice([3, 20, 100, 118, 122, 123, 140, 160, 250])
+            octets = sized(rng, ndefs, size)
+            if kind == "p":
+                ret = 0x81 if rng.random() < 0.9 else 0xC0
+            elif rng.random() < 0.15:
+                ret = 0xC0
+            else:
+                ret = sized(rng, ndefs, rng.choice([3, 60, 122, 123, 130, 200]))
+            ops.append({"op": kind, "octets": octets, "valid": 1, "ret": ret})
+        elif t == "x":
+            ops.append({"op": "x"})
+        else:
+            ops.append({"op": "c", "svc": int(t[1])})
+    sc["ops"] = ops
+    k = rng.random()
+    sc["policy"] = {"kind": "prompt", "lag": 0, "seed": 0, "preempt": 0.0} if k < 0.5 else \
+        {"kind": "random", "lag": 0, "seed": rng.randrange(1 << 30), "preempt": 0.3} if k < 0.8 else \
+        {"kind": "slow:" + rng.choice("cs"), "lag": rng.choice([2, 3]), "seed": 0, "preempt": 0.0}
+    sc["background"] = None
+    return sc
+
+
+def _hist_stack(sc, sf):
+    pol = sc["policy"]
+    policy = sf.Policy(pol["kind"], lag=pol["lag"], seed=pol["seed"], preempt=pol["preempt"])
+    dep = dict(brs=sc["brs"], lri=sc["lri"], lrt=sc["lrt"], acm=sc["comm"] == "active")
+    opt_i = dict(miu=sc["miu_i"], agf=sc["agf_i"], sec=False, **dep)
+    opt_t = dict(miu=sc["miu_t"], agf=sc["agf_t"], sec=False, **dep)
+    return sf.Stack(policy, opt_i, opt_t, comm=sc["comm"], seed=pol["seed"], max_steps=(4000 + 1500 * len(sc["ops"])) * (2 + pol["lag"]))
+
+
+def run_hist_snep(sc):
+    """one SnepClient object, two SNEP services on the peer; returns (model line, observation line, observation)"""
+    from sims import snep_full as sf
+    from props.c06 import canon_result
+    st = _hist_stack(sc, sf)
+    got, cur, cs = [], [None], {"servers": []}
+    c, s = sc["client_role"], ("T" if sc["client_role"] == "I" else "I")
+
+    def mk_server(k):
+        class Srv(nfc.snep.SnepServer):
+            def process_put_request(self, records):
+                got.append((k, "p", b"".join(ndef.message_encoder(records))))
+                return cur[0]["ret"]
+
+            def process_get_request(self, records):
+                got.append((k, "g", b"".join(ndef.message_encoder(records))))
+                r = cur[0]["ret"]
+                return r if isinstance(r, int) else list(ndef.message_decoder(r, known_types={}))
+        return Srv
+
+    def startup_srv(llc):
+        for k, name in enumerate(SERVICES):
+            cfg = sc["services"][k]
+            cs["servers"].append(mk_server(k)(llc, service_name=name, max_acceptable_length=cfg["maxacc"],
+                                              recv_miu=cfg["recv_miu"], recv_buf=cfg["recv_buf"]))
+
+    log = {"res": [], "sock": [], "sent": [], "opened": [], "closed": [], "cmiu": {}}
+
+    def client_app(llc):
+        cl = nfc.snep.SnepClient(llc, max_ndef_msg_recv_size=sc["cacc"])
+        real_connect, real_close = cl.connect, cl.close
+        now = [None]
+
+        def connect(name):
+            real_connect(name)
+            now[0] = SERVICES.index(name)
+            log["opened"].append(now[0])
+            log["cmiu"][now[0]] = cl.send_miu
+
+        def close():
+            if cl.socket:
+                log["closed"].append(now[0])
+            real_close()
+        cl.connect, cl.close = connect, close
+        for op in sc["ops"]:
+            if op["op"] == "c":
+                log["res"].append(canon_result(lambda: cl.connect(SERVICES[op["svc"]])).replace("None", "ok"))
+            elif op["op"] == "x":
+                log["res"].append(canon_result(cl.close).replace("None", "ok"))
+            else:
+                cur[0] = op
+                f = cl.put_octets if op["op"] == "p" else cl.get_octets
+                log["res"].append(canon_result(lambda: f(op["octets"], 1.0)))
+            log["sock"].append(str(now[0]) if cl.socket else "-")
+            log["sent"].append(len(st.sent[c]))        # messages handed to the client's sockets so far
+        snapshot = (list(log["opened"]), list(log["closed"]))
+        quiesce(st, sf)
+        real_close()
+        return snapshot
+
+    def conn_srv(llc, spawn):
+        for k, srv in enumerate(cs["servers"]):
+            spawn("s-listen%d" % k, srv.run)
+
+    def conn_cli(llc, spawn):
+        cs["client"] = spawn("c-app", lambda: client_app(llc))
+
+    verdict = st.run({s: startup_srv, c: lambda llc: None}, {s: conn_srv, c: conn_cli})
+    r = thread_state(cs.get("client"))
+    opened, closed = r[1] if r and r[0] == "ok" else (log["opened"], log["closed"])
+    n = len(log["res"])
+    real = "res=%s dl=%s sock=%s opened=%s closed=%s" % (
+        ",".join(log["res"]) + ("" if n == len(sc["ops"]) else ",client:%s" % (r[0] if r else None)),
+        ",".join("%d:%s:%s" % (k, kind, hx(o)) for k, kind, o in got) or ".",
+        ",".join("%s/%d" % (a, b) for a, b in zip(log["sock"], log["sent"])),
+        ",".join(map(str, opened)) or ".", ",".join(map(str, closed)) or ".")
+    toks = []
+    for op in sc["ops"]:
+        if op["op"] == "c":
+            toks.append("c%d" % op["svc"])
+        elif op["op"] == "x":
+            toks.append("x")
+        elif op["op"] == "p":
+            toks.append("p/%s/%d/%d" % (hx(op["octets"]), op["valid"], op["ret"]))
+        elif isinstance(op["ret"], int):
+            toks.append("g/%s/%d/c%d" % (hx(op["octets"]), op["valid"], op["ret"]))
+        else:
+            toks.append("g/%s/%d/d%s" % (hx(op["octets"]), op["valid"], hx(op["ret"])))
+    svcs = ",".join("%d:%d:%d" % (log["cmiu"].get(k, sc["services"][k]["cmiu"]), 128, sc["services"][k]["maxacc"])
+                    for k in range(len(SERVICES)))
+    line = "hist %d 0 %s %s" % (sc["cacc"], svcs, " ".join(toks) if toks else "x")
+    if not toks:
+        real = "res=ok dl=. sock=-/0 opened=. closed=."
+    ob = {"verdict": verdict, "got": got, "log": log, "opened": opened, "closed": closed, "client": r,
+          "threads": {t.name: thread_state(t) for t in st.sched.threads},
+          "sched": {"steps": st.sched.steps, "ticks": st.sched.ticks, "frames": len(st.air.wire), "end": dict(st.sched.end_state)},
+          "discarded": sum(st.discards.values()), "owed_dm": list(st.owed_dm)}
+    return line, real, ob
+
+
+def hist_snep_oracle(sc, ob):
+    """every message is delivered exactly once to the application of the service the client was connected to at
+    that time (the default service for a temporary connection); connections are released exactly when temporary"""
+    bad = []
+    if ob["verdict"] != "ok":
+        bad.append(("fullstack-run-does-not-end", "step budget used up (%d steps)" % ob["sched"]["steps"]))
+    for name, r in sorted(ob["threads"].items()):
+        if r is None or r[0] == "deadlock":
+            bad.append(("fullstack-thread-blocked-for-ever", "thread %s never finished (%s)" % (name, ob["sched"]["end"].get(name))))
+        elif r[0] == "exc":
+            bad.append(("fullstack-thread-exception", "thread %s ended with %s: %s" % (name, exc_name(r[1]), r[1])))
+    if ob["discarded"]:
+        bad.append(("fullstack-i-pdu-discarded-receive-queue-full", "%d I PDU(s) discarded" % ob["discarded"]))
+    cur, want_dl, want_sock, want_open, want_closed, want_res = None, [], [], [], [], []
+    for op in sc["ops"]:
+        if op["op"] == "c":
+            if cur is not None:
+                want_closed.append(cur)
+            cur = op["svc"]
+            want_open.append(cur)
+            want_res.append("ok")
+        elif op["op"] == "x":
+            if cur is not None:
+                want_closed.append(cur)
+            cur = None
+            want_res.append("ok")
+        else:
+            k = cur if cur is not None else 0
+            if cur is None:
+                want_open.append(0)
+                want_closed.append(0)
+            res, delivered = expect_request(op, sc["services"][k]["cmiu"], sc["services"][k]["maxacc"], sc["cacc"])
+            want_res.append(res)
+            if delivered:
+                want_dl.append((k, op["op"], op["octets"]))
+        want_sock.append("-" if cur is None else str(cur))
+    got = [(k, kind, bytes(o)) for k, kind, o in ob["got"]]
+    if got != want_dl:
+        if sorted((kind, o) for k, kind, o in got) == sorted((kind, o) for k, kind, o in want_dl):
+            key = "snep-history-delivered-to-wrong-service"
+        else:
+            key = "snep-history-message-not-delivered-exactly-once"
+        bad.append((key, "applications saw (service, kind, size) %s, the history asks for %s"
+                    % ([(k, kind, len(o)) for k, kind, o in got], [(k, kind, len(o)) for k, kind, o in want_dl])))
+    if ob["log"]["sock"] != want_sock or list(ob["opened"]) != want_open or list(ob["closed"]) != want_closed:
+        bad.append(("snep-history-connection-released-wrongly",
+                    "socket after each call %s (expected %s); connections opened %s (expected %s), closed %s (expected %s)"
+                    % (ob["log"]["sock"], want_sock, list(ob["opened"]), want_open, list(ob["closed"]), want_closed)))
+    if ob["log"]["res"] != want_res and got == want_dl:
+        bad.append(("snep-history-result", "results %s, expected %s" % ([r[:30] for r in ob["log"]["res"]], [r[:30] for r in want_res])))
+    return bad
+
+
+def gen_hist_ho(ck, rng, ndefs):
+    sc = gen_link(rng)
+    sc["protocol"] = "handover-history"
+    sc["recv_miu"] = rng.choice([128, 200, 248])
+    sc["recv_buf"] = rng.choice([1, 2, 15])
+    sc["c_recv_miu"] = rng.choice([128, 248])
+    sc["c_recv_buf"] = rng.choice([1, 2])
+    start = rng.choice([["c", "r"], ["c", "r", "x", "c", "r", "r"], ["c", "c", "r"], ["c", "r", "r", "x", "r"], ["r"], ["c", "x", "c", "r"]])
+    toks = list(start) + [rng.choice(["r", "r", "c", "x"]) for _ in range(rng.randrange(0, 4))]
+    ops = []
+    for t in toks:
+        if t == "r":
+            rq = sized(rng, ndefs, rng.choice([20, 100, 128, 129, 250, 300]), ndefs.handover_request)
+            rp = sized(rng, ndefs, rng.choice([10, 100, 128, 200, 260]), ndefs.handover_select)
+            ops.append({"op": "r", "req": rq, "rsp": rp})
+        else:
+            ops.append({"op": t})
+    sc["ops"] = ops
+    sc["policy"] = {"kind": "prompt", "lag": 0, "seed": 0, "preempt": 0.0} if rng.random() < 0.6 else \
+        {"kind": "random", "lag": 0, "seed": rng.randrange(1 << 30), "preempt": 0.3}
+    sc["background"] = None
+    return sc
+
+
+def run_hist_ho(sc, reset):
+    from sims import snep_full as sf
+    from props.c06 import canon_result
+    st = _hist_stack(sc, sf)
+    raw, cur, cs = [], [None], {}
+    c, s = sc["client_role"], ("T" if sc["client_role"] == "I" else "I")
+
+    class Srv(nfc.handover.HandoverServer):
+        def _process_request_data(self, octets):
+            raw.append(bytes(octets))
+            return super(Srv, self)._process_request_data(octets)
+
+        def process_handover_request_message(self, records):
+            return list(ndef.message_decoder(cur[0]["rsp"], "relax"))
+
+    def startup_srv(llc):
+        cs["srv"] = Srv(llc, recv_miu=sc["recv_miu"], recv_buf=sc["recv_buf"])
+
+    log = {"res": [], "opened": 0, "orphaned": 0, "cmiu": None, "smiu": None}
+
+    def client_app(llc):
+        cl = nfc.handover.HandoverClient(llc)
+        for op in sc["ops"]:
+            if op["op"] == "c":
+                had = cl.socket is not None
+
+                def conn():
+                    cl.connect(recv_miu=sc["c_recv_miu"], recv_buf=sc["c_recv_buf"])
+                r = canon_result(conn).replace("None", "ok")
+                if r == "ok":
+                    log["opened"] += 1
+                    log["orphaned"] += 1 if had else 0
+                    log["cmiu"] = cl.socket.getsockopt(nfc.llcp.SO_SNDMIU)
+                log["res"].append(r)
+            elif op["op"] == "x":
+                log["res"].append(canon_result(cl.close).replace("None", "ok"))
+            else:
+                cur[0] = op
+
+                def one():
+                    if not cl.send_octets(op["req"]):
+                        return False
+                    return cl.recv_octets(1.0)
+                log["res"].append(canon_result(one))
+        quiesce(st, sf)
+        cl.close()
+        return "done"
+
+    def conn_srv(llc, spawn):
+        spawn("s-listen", cs["srv"].run)
+
+    def conn_cli(llc, spawn):
+        cs["client"] = spawn("c-app", lambda: client_app(llc))
+
+    verdict = st.run({s: startup_srv, c: lambda llc: None}, {s: conn_srv, c: conn_cli})
+    srv_link = sc["miu_t"] if sc["client_role"] == "I" else sc["miu_i"]
+    cli_link = sc["miu_i"] if sc["client_role"] == "I" else sc["miu_t"]
+    cmiu = log["cmiu"] or min(sc["recv_miu"], srv_link)
+    smiu = min(sc["c_recv_miu"], cli_link)
+    r = thread_state(cs.get("client"))
+    real = "res=%s dl=%s opened=%d orphaned=%d" % (",".join(log["res"]) + ("" if len(log["res"]) == len(sc["ops"]) else ",client:%s" % (r[0] if r else None)),
+                                                   ",".join(hx(x) for x in raw) or ".", log["opened"], log["orphaned"])
+    line = "hohist %d %d %d %s" % (cmiu, smiu, reset, " ".join(
+        "c" if o["op"] == "c" else "x" if o["op"] == "x" else "%s/%s" % (hx(o["req"]), hx(o["rsp"])) for o in sc["ops"]))
+    ob = {"verdict": verdict, "raw": raw, "log": log, "threads": {t.name: thread_state(t) for t in st.sched.threads},
+          "sched": {"steps": st.sched.steps, "end": dict(st.sched.end_state)}, "discarded": sum(st.discards.values()),
+          "owed_dm": list(st.owed_dm)}
+    return line, real, ob
+
+
+def hist_ho_oracle(sc, ob):
+    bad = []
+    if ob["verdict"] != "ok":
+        bad.append(("fullstack-run-does-not-end", "step budget used up (%d steps)" % ob["sched"]["steps"]))
+    for name, r in sorted(ob["threads"].items()):
+        if r is None or r[0] == "deadlock":
+            bad.append(("fullstack-thread-blocked-for-ever", "thread %s never finished (%s)" % (name, ob["sched"]["end"].get(name))))
+        elif r[0] == "exc":
+            bad.append(("fullstack-thread-exception", "thread %s ended with %s: %s" % (name, exc_name(r[1]), r[1])))
+    if ob["discarded"]:
+        bad.append(("fullstack-i-pdu-discarded-receive-queue-full", "%d I PDU(s) discarded" % ob["discarded"]))
+    conn, want_dl, want_res = False, [], []
+    for op in sc["ops"]:
+        if op["op"] == "c":
+            conn = True
+            want_res.append("ok")
+        elif op["op"] == "x":
+            conn = False
+            want_res.append("ok")
+        elif conn:
+            want_dl.append(op["req"])
+            want_res.append("data:" + hx(op["rsp"]))
+        else:
+            want_res.append("exc:AttributeError")
+    if ob["raw"] != want_dl:
+        bad.append(("handover-history-request-not-delivered-exactly-once", "server application saw requests of %s octets, the history asks for %s"
+                    % ([len(x) for x in ob["raw"]], [len(x) for x in want_dl])))
+    elif ob["log"]["res"] != want_res:
+        bad.append(("handover-history-result", "results %s, expected %s" % ([r[:30] for r in ob["log"]["res"]], [r[:30] for r in want_res])))
+    return bad
